@@ -443,7 +443,7 @@ func (*Stream).groupFieldOutputName
   ensures alias-wins: dom(s.config.SelectAlias, gf) && s.config.SelectAlias[gf] != "" ==> result == s.config.SelectAlias[gf]
 
 func (*Stream).injectGroupKeyExprs
-  props C04 C20 C05 C06 C07 C16
+  props C04 C20 C05 C06 C07 C16 C09 C10 C17
   modifies mapof(data)
   ensures no-function-key-nothing-written: forall(i, 0, len(s.config.GroupFields), !strings.Contains(s.config.GroupFields[i], "(")) ==> mapUnchanged(data)
   atreturn every-function-key-is-attempted: $done1
